@@ -98,6 +98,8 @@ def parseFont (fs : List (String × String)) : Option Font := do
   let comps ← parseComps ((getField fs "comps").getD "")
   let cmaps ← parseCMaps ((getField fs "cmaps").getD "-")
   let np := ((getField fs "np").bind String.toNat?).getD 0
+  -- private-dict id of every FD (`pv=`; FDs with equal ids share one dictionary); default identity
+  let pv := ((getField fs "pv").bind (natsSep ",")).getD (List.range np)
   let fd ← natsSep "," ((getField fs "fd").getD "")
   let encS := (getField fs "enc").getD "-"
   let enc ← if encS == "-" then some none else (parseCMapEntries encS).map some
@@ -112,7 +114,7 @@ def parseFont (fs : List (String × String)) : Option Font := do
     glyphs := glyphs
     hasNames := kind != "ttf" || nm.isSome
     cmaps := cmaps
-    privates := List.range np
+    privates := pv
     matrices := if kind == "cid" then List.range np else []
     cidKeyed := kind == "cid"
     fdSelect := fd
@@ -340,11 +342,15 @@ def checkRes (f : Font) (glyphs : List Gid) (r : Res) : Option String :=
         (kc.1, kc.2.filterMap fun e => (idxIn ord e.2).map fun i => (e.1, i))) == r.cmaps) then
     some "cmap" else
   -- CFF
-  if f.isCFF && !(r.fd.length == ord.length && decide r.privates.Nodup &&
+  -- every glyph keeps its private dictionary and (CID) its font matrix; every font dictionary of the
+  -- subset is used, and no (private dictionary, font matrix) pair occurs twice
+  if f.isCFF && !(r.fd.length == ord.length &&
         ((List.range ord.length).all fun j =>
-          r.privates[r.fd.getD j 0]? == some (f.fdSelect.getD (ord.getD j 0) 0) &&
-          (!f.cidKeyed || r.matrices[r.fd.getD j 0]? == some (f.fdSelect.getD (ord.getD j 0) 0))) &&
-        (r.privates.all fun p => ord.any fun o => f.fdSelect.getD o 0 == p)) then
+          r.privates[r.fd.getD j 0]? == some (f.privates.getD (f.fdSelect.getD (ord.getD j 0) 0) 0) &&
+          (!f.cidKeyed ||
+            r.matrices[r.fd.getD j 0]? == some (f.matrices.getD (f.fdSelect.getD (ord.getD j 0) 0) 0))) &&
+        ((List.range r.privates.length).all fun k => r.fd.contains k || r.privates.length == 1) &&
+        (if f.cidKeyed then decide (r.privates.zip r.matrices).Nodup else decide r.privates.Nodup)) then
     some "cff-private" else
   if f.isCFF && !(showOptNats (f.gidToCID.map fun t => ord.map fun o => t.getD o 0) == r.cid) then
     some "cff-cid" else
